@@ -35,6 +35,7 @@ type Class struct {
 	ErrAt        string   // … "result": last result of the (first) stage function; "arg": the error VALUE given to join / toerror
 	Rn           []string // names of the results of the function under test (nil: unnamed); toerror: the bool included
 	TupleClash   []int    // fmape: the package also calls deriveTuple on values of these types (assignable to, not identical with, f's results)
+	IfaceParam   int      // compose: stage 0's first result has type 21 (*sqp), stage 1 receives it in a parameter of this INTERFACE type (17 / 11); 0 = none
 	Import       string   // import path the package's own file needs (for the argument expression only)
 	ErrExpr      string   // toerror: Go source of the supplied error value (error number 0) when it is not errOf(…)
 	Twin         bool     // a SECOND call site of the same derive function: same types, parameter names in another order
@@ -162,6 +163,9 @@ func (c *Class) sigWire() string {
 			sb.WriteString(" " + strings.Replace(wireTys("", s), "( ", "(", 1))
 		}
 		sb.WriteString(")")
+		if c.IfaceParam != 0 {
+			sb.WriteString(" (ifacechain 1)")
+		}
 		return sb.String()
 	case "fmape", "traverse":
 		if len(c.TupleClash) > 0 {
@@ -228,8 +232,8 @@ func (c *Class) goSig() string {
 	case "compose":
 		in := c.Ins
 		var fs []string
-		for _, outs := range c.Stages {
-			fs = append(fs, sig(unnamed(in), outs, "error"))
+		for i, outs := range c.Stages {
+			fs = append(fs, sig(unnamed(c.stageParams(i, in)), outs, "error"))
 			in = outs
 		}
 		return "deriveCompose(" + strings.Join(fs, ", ") + ")"
@@ -379,6 +383,16 @@ func (c *Class) tag(dflt string) string {
 		return c.siteTag
 	}
 	return dflt
+}
+
+// stageParams: the parameter types of stage i given the result types `in` of the stage before it
+func (c *Class) stageParams(i int, in []int) []int {
+	if c.IfaceParam != 0 && i == 1 {
+		pin := append([]int{}, in...)
+		pin[0] = c.IfaceParam // assignable, not identical: *sqp is received as an interface
+		return pin
+	}
+	return in
 }
 
 func (c *Class) stageTag(i int) string {
@@ -564,12 +578,18 @@ func (c *Class) source() string {
 			if i == 0 {
 				et = c.errGo("result")
 			}
-			w("func F%d(%s)%s {\n\ta := %s\n\tlogStage(%d, a)\n\treturn %s\n}\n\n", i, implParams(in, 0), goResults(outs, et),
-				obsList(in, 0), i, strings.Join(append(mkResults(outs, c.stageTag(i)), c.errRet(i, i == 0)), ", "))
+			pin := c.stageParams(i, in)
+			res := mkResults(outs, c.stageTag(i))
+			if c.IfaceParam != 0 && i == 0 {
+				// the result that is handed to the interface parameter of the next stage can be told to be the nil pointer
+				res[0] = fmt.Sprintf("mk%d(zr(hh(%s, 0, a)))", outs[0], c.stageTag(i))
+			}
+			w("func F%d(%s)%s {\n\ta := %s\n\tlogStage(%d, a)\n\treturn %s\n}\n\n", i, implParams(pin, 0), goResults(outs, et),
+				obsList(pin, 0), i, strings.Join(append(res, c.errRet(i, i == 0)), ", "))
 			in = outs
 		}
 		last := c.Stages[len(c.Stages)-1]
-		runFn(fmt.Sprintf("\tw := deriveCompose(%s)\n", strings.Join(names, ", ")), append(rvars(len(last)), "err"),
+		runFn(fmt.Sprintf("\tZero = len(in[\"zero\"]) == 1 && in[\"zero\"][0] != 0\n\tw := deriveCompose(%s)\n", strings.Join(names, ", ")), append(rvars(len(last)), "err"),
 			fmt.Sprintf("w(%s)", strings.Join(mkArgs(c.Ins, 0), ", ")), "outcomeE("+obsVars(last)+", err)")
 	case "fmape":
 		if len(c.TupleClash) > 0 {
@@ -728,6 +748,16 @@ func (c *Class) Ops(rng *rand.Rand, cfg string, nargs int) []string {
 		// every choice of the failing stage (or none) x both error values x argument vectors
 		for i := 0; i < 2; i++ {
 			args := wireInts("args", payloads(rng, c.Ins))
+			if c.IfaceParam != 0 {
+				// the pointer result of stage 0 once a real pointer, once the nil pointer (with a nil error)
+				for z := 0; z < 2; z++ {
+					zp := wireInts("zero", []int{z})
+					add("(fail)", args, zp)
+					add(wireInts("fail", []int{1, z}), args, zp)
+					add(wireInts("fail", []int{len(c.Stages) - 1, 1 - z}), args, zp)
+				}
+				continue
+			}
 			add("(fail)", args)
 			for s := range c.Stages {
 				for k := 0; k < 2; k++ {
